@@ -1,7 +1,9 @@
 package main
 
 import (
+	"fmt"
 	"go/types"
+	"os"
 	"sort"
 	"strings"
 
@@ -348,7 +350,7 @@ func checkGenerate(c *Ctx, m *gensignModel, h *types.Named, gen *ssa.Function) {
 	// PublicKey
 	var agentKeyCall *ssa.Call
 	okPK := false
-	for _, call := range callsIn(gen) {
+	for _, call := range w.callsInDeep(gen) {
 		// the repository constructor of the agent key is a named primitive of this rule
 		if cv, ok := call.(*ssa.Call); ok {
 			if callee := w.helperOf(cv); callee != nil && callee.Signature.Results().Len() == 2 && strings.Contains(callee.Signature.Results().At(0).Type().String(), "AgentKey") {
@@ -360,7 +362,7 @@ func checkGenerate(c *Ctx, m *gensignModel, h *types.Named, gen *ssa.Function) {
 		ex := w.Expr(vs[0])
 		if strings.HasPrefix(ex, "conv<string>(call<golang.org/x/crypto/ssh.MarshalAuthorizedKey>(call<(*"+RepoMod+"/agent/ssh.AgentKey).PublicKey>(") {
 			// the agent key is result 0 of a repository call made in Generate
-			for _, call := range callsIn(gen) {
+			for _, call := range w.callsInDeep(gen) {
 				cv, ok := call.(*ssa.Call)
 				if !ok {
 					continue
@@ -371,6 +373,11 @@ func checkGenerate(c *Ctx, m *gensignModel, h *types.Named, gen *ssa.Function) {
 					okPK = true
 				}
 			}
+		}
+	}
+	if os.Getenv("YV_DEBUG") != "" {
+		for _, v := range rf["PublicKey"] {
+			fmt.Fprintln(os.Stderr, "C02 PublicKey expr:", w.Expr(v))
 		}
 	}
 	c.Check(okPK, "R1.csr", hn+"|PublicKey", w.Pos(req.Pos()), "ssh.MarshalAuthorizedKey(agentKey.PublicKey()) of the agent key generated in this activation", "the certified public key is not the freshly generated agent key's: "+exprList(w, rf["PublicKey"]))
@@ -396,12 +403,12 @@ func checkGenerate(c *Ctx, m *gensignModel, h *types.Named, gen *ssa.Function) {
 	// the request is attached to the generated agent key, which is what Generate returns
 	if agentKeyCall != nil {
 		attached := false
-		for _, call := range callsIn(gen) {
+		for _, call := range w.callsInDeep(gen) {
 			cv, ok := call.(*ssa.Call)
 			if !ok {
 				continue
 			}
-			if len(cv.Call.Args) == 2 && w.canon(gen, cv.Call.Args[1]) == ssa.Value(req) && cv.Call.Args[0] == extractOf(agentKeyCall, 0) {
+			if len(cv.Call.Args) == 2 && w.canon(gen, cv.Call.Args[1]) == ssa.Value(req) && (cv.Call.Args[0] == extractOf(agentKeyCall, 0) || w.canon(gen, cv.Call.Args[0]) == extractOf(agentKeyCall, 0)) {
 				attached = true
 			}
 		}
